@@ -25,6 +25,21 @@ import (
 type Case struct {
 	Files  map[string]string `json:"files"`
 	Config cfggen.Config     `json:"config"`
+	// SelfAutobind: autobind lists the package the exec file is generated into (it holds a
+	// hand-written doc.go, as a user's package holds hand-written models)
+	SelfAutobind bool `json:"self_autobind,omitempty"`
+	// ExecNamed: schema types named like an exported identifier of the generated exec file
+	ExecNamed []string `json:"exec_named,omitempty"`
+}
+
+const staleExecKey = "idempotence.followschema-stale-exec-files-autobound"
+
+// staleExecClass: the input class of the known finding - the follow-schema layout leaves the
+// previous exec files in place while the next run binds (api.Generate removes only exec.filename),
+// so with the exec package in autobind a schema type named like one of their exported identifiers
+// is bound to that identifier on the second run.
+func (c Case) staleExecClass() bool {
+	return c.Config.ExecLayout == "follow-schema" && c.SelfAutobind && len(c.ExecNamed) > 0
 }
 
 var seq atomic.Int64
@@ -46,31 +61,33 @@ var runs = []run{
 
 func hashTree(dir string) (map[string]string, error) {
 	out := map[string]string{}
-	ents, err := os.ReadDir(dir)
-	if err != nil {
-		return nil, err
-	}
-	for _, e := range ents {
-		if e.IsDir() || !strings.HasSuffix(e.Name(), ".go") {
-			continue
-		}
-		b, err := os.ReadFile(filepath.Join(dir, e.Name()))
+	err := filepath.Walk(dir, func(p string, info os.FileInfo, err error) error {
 		if err != nil {
-			return nil, err
+			return err
+		}
+		if info.IsDir() || !strings.HasSuffix(p, ".go") {
+			return nil
+		}
+		b, err := os.ReadFile(p)
+		if err != nil {
+			return err
 		}
 		h := sha256.Sum256(b)
-		out[e.Name()] = hex.EncodeToString(h[:])
-	}
-	return out, nil
+		rel, _ := filepath.Rel(dir, p)
+		out[filepath.ToSlash(rel)] = hex.EncodeToString(h[:])
+		return nil
+	})
+	return out, err
 }
 
+// wipe removes every generated file (all Go files but the hand-written doc.go).
 func wipe(dir string) {
-	ents, _ := os.ReadDir(dir)
-	for _, e := range ents {
-		if strings.HasSuffix(e.Name(), ".go") {
-			_ = os.Remove(filepath.Join(dir, e.Name()))
+	_ = filepath.Walk(dir, func(p string, info os.FileInfo, err error) error {
+		if err == nil && !info.IsDir() && strings.HasSuffix(p, ".go") && filepath.Base(p) != "doc.go" {
+			_ = os.Remove(p)
 		}
-	}
+		return nil
+	})
 }
 
 func diffTrees(a, b map[string]string) string {
@@ -113,6 +130,14 @@ func check(c Case) *vfrun.Failure {
 		_ = os.MkdirAll(filepath.Dir(filepath.Join(dir, n)), 0o755)
 		_ = os.WriteFile(filepath.Join(dir, n), []byte(content), 0o644)
 	}
+	if c.SelfAutobind {
+		rel, _ := filepath.Rel(filepath.Join(work, "h"), dir)
+		_ = os.WriteFile(filepath.Join(dir, "doc.go"), []byte("// Package "+c.Config.Package+" holds the user's own code beside the generated one.\npackage "+c.Config.Package+"\n"), 0o644)
+		if c.Config.Extra == nil {
+			c.Config.Extra = map[string]string{}
+		}
+		c.Config.Extra["autobind"] = "[\"vh/" + filepath.ToSlash(rel) + "\"]"
+	}
 	_ = os.WriteFile(filepath.Join(dir, "gqlgen.yml"), []byte(c.Config.YAML()), 0o644)
 	tool := filepath.Join(work, "gqlgen-gen")
 	var first map[string]string
@@ -141,6 +166,9 @@ func check(c Case) *vfrun.Failure {
 						_ = os.WriteFile(os.Getenv("VF_DEBUG"), []byte(c.Config.YAML()+"\n"+out.String()), 0o644)
 					}
 				}
+				return nil
+			}
+			if !r.wipe && c.staleExecClass() && vfrun.IsKnown(staleExecKey) {
 				return nil
 			}
 			return vfrun.Failf("determinism.later-run-fails", "run %d (%s) fails although run 0 succeeded: %v\n%s", i, r.name, err, tail(out.String()))
@@ -173,6 +201,9 @@ func check(c Case) *vfrun.Failure {
 			key := "determinism.output-differs"
 			if !r.wipe {
 				key = "idempotence.regeneration-changes-files"
+				if c.staleExecClass() && vfrun.IsKnown(staleExecKey) {
+					return nil
+				}
 			}
 			detail := ""
 			for n := range h {
@@ -227,11 +258,15 @@ func gen(t *rapid.T) Case {
 	// a third of the multi-file projects keep their schema files under one base name in different
 	// directories, which the follow-schema layouts merge into one generated file
 	sameBase := rapid.IntRange(0, 2).Draw(t, "samebase") == 0
+	// a third of the projects generate their models into a package of their own (gqlgen's init
+	// layout); half of those autobind the exec package, and their schemas may name types like
+	// exported identifiers of the exec file
+	splitModel := rapid.IntRange(0, 2).Draw(t, "splitmodel") == 0
 	files := rapid.IntRange(1, 3).Draw(t, "files")
 	if sameBase {
 		files = rapid.IntRange(2, 3).Draw(t, "files-samebase")
 	}
-	s := sdlgen.Generate(t, sdlgen.Options{SameBase: sameBase, Files: files, Roots: true, Hostile: rapid.Bool().Draw(t, "hostile"), DeprecatedInputs: true, MaxTypes: 14, ExecDirectives: true, Cycles: true})
+	s := sdlgen.Generate(t, sdlgen.Options{SameBase: sameBase, ExecNames: splitModel, Files: files, Roots: true, Hostile: rapid.Bool().Draw(t, "hostile"), DeprecatedInputs: true, MaxTypes: 14, ExecDirectives: true, Cycles: true})
 	schema, err := loadSchema(s.Files)
 	if err != nil {
 		t.Skip("invalid schema")
@@ -251,6 +286,31 @@ func gen(t *rapid.T) Case {
 		}
 	}
 	c := Case{Files: s.Files, Config: cfggen.Draw(t, "gen", fields)}
+	if splitModel {
+		c.Config.SplitModel = true
+		vfrun.Label("models-in-own-package")
+		for _, n := range sdlgen.ExecFileTypeNames {
+			if schema.Types[n] != nil {
+				c.ExecNamed = append(c.ExecNamed, n)
+			}
+		}
+		if len(c.ExecNamed) > 0 {
+			vfrun.Label("schema:type-named-like-exec-identifier")
+		}
+		if rapid.Bool().Draw(t, "selfautobind") {
+			c.SelfAutobind = true
+			if c.staleExecClass() && vfrun.KnownListed(staleExecKey) {
+				// known finding, excluded by construction (pinned by a corpus case)
+				c.SelfAutobind = false
+				vfrun.Label("excluded-by-construction:" + staleExecKey)
+			} else {
+				vfrun.Label("models-in-own-package+autobind-exec-package")
+				if len(c.ExecNamed) > 0 {
+					vfrun.Label("autobind-exec-package+type-named-like-exec-identifier")
+				}
+			}
+		}
+	}
 	if s.Features["non-null-object-cycle"] && rapid.Bool().Draw(t, "valuefields") {
 		// the order-sensitive pass of modelgen (cyclical relationships) only runs with value fields
 		c.Config.Bools["struct_fields_always_pointers"] = false
